@@ -104,11 +104,27 @@ def gen_spec_case(rng):
     return "spec " + hx(s)
 
 
+def builder_spec(rng):
+    """a specification string for from_module_filters / insert_modules_from: without a part "=level" (that is the module
+    name "", which is not a Rust path; a HashMap-built specification holding both it and a default has them in arbitrary
+    order, and the Display form then shows the default or not - outside what C17 quantifies over)"""
+    while True:
+        s = spec_string(rng, 0.1)
+        if not any(part.strip().startswith("=") for part in s.split("/")[0].split(",")):
+            return s
+
+
 def gen_specb_case(rng):
     ops = []
     for _ in range(rng.randint(0, 7)):
         r = rng.random()
-        if r < 0.7:
+        if r < 0.1:
+            ops.append("F:%s" % hx(builder_spec(rng)))      # from_module_filters
+        elif r < 0.2:
+            ops.append("I:%s" % hx(builder_spec(rng)))      # insert_modules_from
+        elif r < 0.25:
+            ops.append("V:%d" % rng.randint(0, 5))             # LogSpecification::off() .. trace()
+        elif r < 0.7:
             ops.append("M:%s:%d" % (hx(rng.choice(NAMES)), rng.randint(0, 5)))
         elif r < 0.9:
             ops.append("D:%d" % rng.randint(0, 5))
